@@ -854,6 +854,7 @@ func checkC18(c *Ctx, r *Report) {
 	rawRule(c, r, "C18.RAW")
 	c18Num(c, r)
 	c18RawAccept(c, r)
+	c18UAccept(c, r)
 	sepRule(c, r, "C18.SEP", true)
 	sepRule(c, r, "C18.SEPJ", false)
 	r.rule("C18.NEST", "every nest() of the reader is matched by unnest() (call or defer) on every path to a successful return of the calling function")
@@ -969,7 +970,11 @@ func checkC18(c *Ctx, r *Report) {
 	r.floor("C18.TABLE", "escape letters emitted by the writer", len(em), 7)
 	// \u: reader loops exactly four times
 	four := false
-	for _, l := range loopsOf(re) {
+	var reLoops []*loopInfo
+	for _, f := range escapeReaderFns(c, re) {
+		reLoops = append(reLoops, loopsOf(f)...)
+	}
+	for _, l := range reLoops {
 		if ifi, ok := l.head.Instrs[len(l.head.Instrs)-1].(*ssa.If); ok {
 			if v, op, k, ok := intCmp(ifi.Cond); ok {
 				if op == token.LSS && k == 4 {
@@ -997,7 +1002,7 @@ func checkC18(c *Ctx, r *Report) {
 			}
 		}
 	}
-	r.check("C18.TABLE", "the reader takes exactly four hex digits after \\u", re.Pos(), four, "no loop bounded by 4 in readEscaped")
+	r.check("C18.TABLE", "the reader takes exactly four hex digits after \\u", re.Pos(), four, "no loop bounded by 4 in readEscaped or a function it calls")
 	// KINDS
 	produced := map[string]bool{}
 	{
